@@ -92,7 +92,7 @@ class Sim(conc.Hooks):
 
     # ------------------------------------------------------------------ symbolic invariant state
     def havoc(self, *, tie_n=None, tie_r=None, closed=None, killed=False, force_killed=False, waiting=None,
-              min_len=0, explicit_next=None):
+              min_len=0, explicit_next=None, sender=None):
         """Overwrite the mailbox state with a fresh symbolic state satisfying the invariant.
 
         tie_n: value that _n_sent must equal (sender's stale local).  tie_r: {j: value} for a reader's own
@@ -156,6 +156,15 @@ class Sim(conc.Hooks):
                 if isw and closed:
                     assume(r[j] < n - 1)  # a reader that has seen the end marker has left
                 w.append(r[j] + 1 if isw else None)
+        if self.lazy and not killed:
+            # demand-driven production: nothing is produced while somebody waits for a queued message
+            for j in range(S):
+                if w[j] is not None:
+                    assume(w[j] >= n - 1)
+                    if sender in ("sending", "closing"):
+                        # the sender has passed the fetch gate: nobody was waiting for a queued message then, and a
+                        # reader never starts waiting for a queued message
+                        assume(w[j] >= n)
         mb._n_sent = n
         mb._subscribers_have_read = list(r)
         mb._subscriber_waiting_for = list(w)
@@ -165,7 +174,7 @@ class Sim(conc.Hooks):
         mb.killed_because = "because" if killed else None
         if core._CONCRETE is not None:
             INJECTED.append(dict(self.snapshot(), nsubs=S, lazy=self.lazy, cap=self.cap, drivers=list(self.drivers),
-                                 numbering=self.numbering))
+                                 numbering=self.numbering, sender=sender))
         return self.snapshot()
 
     def snapshot(self):
@@ -198,6 +207,8 @@ class Sim(conc.Hooks):
         for j in range(S):
             if st["w"][j] is not None:
                 prove(st["w"][j] == r[j] + 1, label + ":published demand is not the reader's next message")
+                if self.lazy and not st["killed"]:
+                    prove(st["w"][j] >= n - 1, label + ":lazy: produced beyond a waiter's queued message")
 
 
 def has(heap, num):
@@ -307,6 +318,10 @@ def search_reach(st, budget=4000):
         holder = {}
 
         def matches(mb):
+            if st.get("sender") == "sending" and holder.get("fetching") != tgt["n"]:
+                return False
+            if st.get("sender") == "closing" and holder.get("fetching") != "end":
+                return False
             return (mb._n_sent == tgt["n"] and list(mb._subscribers_have_read) == tgt["r"]
                     and list(mb._subscriber_waiting_for) == tgt["w"]
                     and sorted(h for h, _ in mb._mailbox) == tgt["heap"] and bool(mb.closed) == tgt["closed"])
@@ -346,8 +361,10 @@ def search_reach(st, budget=4000):
 
             def source():
                 for i in range(nreal):
+                    holder["fetching"] = i  # the sender has passed the gate and is fetching message i
                     s.pause()
                     yield ("payload", i)
+                holder["fetching"] = "end"
                 s.pause()
                 if not tgt["closed"]:
                     # never finish: park here for ever (only an abort ends this thread)
@@ -388,7 +405,9 @@ def nat_rg(sym_fn):
         if label is None:
             return {"ok": True, "detail": "all obligations hold on the concrete replay"}
         scripts = []
-        for st in list(INJECTED):
+        # the failing section starts from the LAST injected state (earlier ones only feed stale locals, which
+        # every obligation ties to the shared state by an equality)
+        for st in list(INJECTED)[-1:]:
             found, script, runs = search_reach(st)
             if found is None:
                 scripts.append("state outside the schedule search (explicit numbering / killed)")
